@@ -284,7 +284,7 @@ impl<'a> RunGen<'a> {
         // answers above 1 MiB (thorough tier: such a conversion takes ~10 s): many
         // small captions with multi-byte characters, i.e. a large document that is
         // non-ASCII all over
-        if self.thorough && rng.chance(1, 2500) {
+        if self.thorough && rng.chance(1, 20_000) {
             let unit = format!("{}\n", *rng.pick(&["é  ", "文   ", "o  é  ", "ü ö  "])).repeat(1);
             let line = unit.trim_end().repeat(40) + "\n";
             let times = 115_000 / line.len() + rng.usize_below(40);
